@@ -150,6 +150,20 @@ def attach_once(key, fn):
     return _attached[key]
 
 
+def safe_internal(fn):
+    """Attach diagnostic hooks on *private* functions.  If the repository no
+    longer has them (a refactoring), the hooks are skipped and the
+    requirements that depend on them are waived by the driver; deciding
+    monitors never depend on private names."""
+    try:
+        fn()
+        return True
+    except (AttributeError, KeyError, ImportError) as e:
+        LOG.counters['internal_hooks_unavailable'] += 1
+        LOG.notes.append('internal hooks unavailable: ' + fmt_exc(e))
+        return False
+
+
 def assert_repo(root='/repo'):
     """The code being monitored must be the working tree of /repo (or the
     tree named by VMON_REPO for mutant validation on scratch copies)."""
